@@ -56,8 +56,8 @@ impl Property for C10 {
     }
     fn cases(&self, tier: Tier) -> u64 {
         match tier {
-            Tier::Quick => 60_000,
-            Tier::Thorough => 2_000_000,
+            Tier::Quick => 300000,
+            Tier::Thorough => 5000000,
         }
     }
     fn claims_termination(&self) -> bool {
